@@ -19,7 +19,8 @@ STAGES = ["none", "bad_owner_signature", "expired", "missing_link", "unauthorise
           "failing_step_rule_match_from_undefined", "failing_last_step_rule", "sublayout_expired", "sublayout_missing_link",
           "sublayout_rule", "surplus_sublayout_missing_link", "surplus_sublayout_expired"]
 OUTCOMES = ["exit0", "exit1", "exit2", "exit127", "exit255", "killed", "not_found", "creates", "modifies", "deletes"]
-RULESETS = ["none", "satisfied", "violated_materials", "violated_products", "products_only_create_preexisting"]
+RULESETS = ["none", "satisfied", "violated_materials", "violated_products", "products_only_create_preexisting",
+            "violated_products_named_like_a_step"]
 FUNC = ["ed4", "ed5", "ed6", "edp2"]
 
 
@@ -41,6 +42,8 @@ def rules_of(rs):
         # no material rules at all; pre.txt exists before the command runs, so it is not *created* by the inspection:
         # CREATE does not consume it and the DISALLOW after it applies - unless the command deletes the file
         return [], [["CREATE", "*.txt"], ["DISALLOW", "pre.txt"], ["ALLOW", "*"]]
+    # also for "violated_products_named_like_a_step": the inspection carries the name of the layout's last step (names
+    # need not be unique); its rules apply to what the inspection recorded, not to the step's link
     return [["ALLOW", "*"]], [["DISALLOW", "sentinel.txt"], ["ALLOW", "*"]]
 
 
@@ -58,7 +61,8 @@ def build_cell(W, rng, stage, outcome, rs, ninsp, level, keyset=FUNC, random_ext
         oc = outcome if last else "exit0"
         mr, pr = rules_of(rs if last else "satisfied")
         run = ["/nonexistent/itv-no-such-command"] if oc == "not_found" else ["sh", "-c", script(tag, oc)]
-        insp.append(scen.mk_inspection(f"insp{j}", run, mr, pr))
+        iname = "package" if (last and rs == "violated_products_named_like_a_step") else f"insp{j}"
+        insp.append(scen.mk_inspection(iname, run, mr, pr))
     # the inspected layout: steps build (threshold thr) and package
     build_rules_p = [["DISALLOW", "*"]] if stage == "failing_step_rule" else [["ALLOW", "*"]]
     if stage == "failing_step_rule_match_from_inspection":
@@ -260,7 +264,7 @@ def main(ctx):
                           "levels": ["top", "delegated"], "cells": ncells}
     return common.finish(
         PROP, ctx.tier, ctx.seed, res, t0=ctx.t0, level="fault_enumeration",
-        rule="complete grid failing stage (17) x inspection outcome (10) x inspection rule set (5) x 1-2 inspections x "
+        rule="complete grid failing stage (17) x inspection outcome (10) x inspection rule set (6) x 1-2 inspections x "
              "{top-level, delegated layout}; every cell is one real in_toto_verify call in a fresh working directory, "
              "observed through the inspection command's own sentinel/snapshot files; every cell is non-trivial and "
              "distinct; thorough repeats the grid with other key types",
